@@ -39,10 +39,10 @@ def run(ctx):
         ctx.violation('exception leaves pipeline() through execute() while generator tasks are queued (crash / undefined behaviour): ' + (out_esc or '')[:200],
                       {'finding_key': pc.KEY_ESCAPE, 'case': pc.line_of(pc.WIT_ESCAPE)})
     # 2. generated cases with exceptions
-    n = 150 if ctx.quick else 2500
+    n = 120 if ctx.quick else 2500
     cases = [pc.gen_case(r, exceptions=True, small=(i % 10 != 0) or ctx.quick) for i in range(n)]
     kept, terms = pc.run_lockstep(ctx, exe, cases)
-    nn = 14 if ctx.quick else 120
+    nn = 12 if ctx.quick else 120
     ncases = [pc.gen_native(r, exceptions=True) for _ in range(nn)]
     nkept, nterms = pc.run_native(ctx, exe, ncases, 2)
     ctx.cov['evaluations'] += len(cases) + len(wk) + 1 + len(nkept)
@@ -51,7 +51,12 @@ def run(ctx):
     ctx.cov['rule'] = ('random pipelines with at least one throw position (stage x item first/middle/last/random, or the generator), 1-4 later stages, limits 1/2/3/unlimited/0,4,7, '
                        '0-6 items (lockstep) / 0-30 (native), 1-3 workers, inline thresholds x random schedules under vsched, payloads lifetime-tracked; non-trivial = more than 20 steps; '
                        'distinct = distinct (trace, log) strings; plus the three finding witnesses; native = real pools of 0-4 threads, one generator instance, 2 repetitions')
-    verdicts = ls_common.judge_parallel(ctx, pc.IMPORTS, 'judge_c29', wt + terms + nterms, shard_size=60)
+    verdicts = ls_common.judge_parallel(ctx, pc.IMPORTS, 'judge_c29', wt + terms, shard_size=60)
+    nverd = ls_common.judge_parallel(ctx, pc.IMPORTS, 'judge_c29n', nterms, shard_size=60)
+    if verdicts is not None and nverd is not None:
+        verdicts = verdicts + nverd
+    else:
+        verdicts = None
     if verdicts is None:
         ctx.broken.append('correspondence L(C29): the model no longer evaluates')
         return
@@ -60,8 +65,6 @@ def run(ctx):
     nl = len(wk) + len(kept)
     for i, (v, (c, p, o)) in enumerate(zip(verdicts, allk)):
         native = i >= nl
-        if native and v == 1:
-            v = 0
         hist[v] = hist.get(v, 0) + 1
         line = pc.native_line(c, 1) if native else pc.line_of(c)
         if v == 4:
